@@ -25,22 +25,23 @@ metas=[]
 for d in sorted(os.listdir(R+'/seeded')):
     p=R+'/seeded/%s/meta.json'%d
     if os.path.exists(p): metas.append((d,json.load(open(p))))
-missed=sum(1 for _,m in metas if m['detection_status'].startswith('MISSED'))
+missed=sum(1 for _,m in metas if m['detection_status'].lower().startswith('missed'))
 res=open(R+'/seeded/RESULTS.txt', errors='replace').read().strip().splitlines()[-1] if os.path.exists(R+'/seeded/RESULTS.txt') else 'not run'
 out+='''
 ### 8.7 Independently seeded changes (seeded/<id>[-b|-c|-d|...]/, rounds of 20)
 
-Each was written by a fresh sub-agent that saw only the property text (rounds 2 and 3: plus one line per
-earlier change for that property, to force a different kind) and its own scratch worktree of /repo — nothing
+Each was written by a fresh sub-agent that saw only the property text (from round 2 on: plus one line per
+earlier change for that property, taken from the earlier sub-agents' own descriptions, to force a different kind;
+rounds 4-7 also named the kinds of sweep that exist, later rounds did not) and its own scratch worktree of /repo — nothing
 from /verif. I kept a change only after confirming in a fresh worktree that it applies, that biostuff's own
 tests pass with it and that its demonstration fails with it and passes without it (tools/seedcheck.sh).
 `tools/seedrun.sh` performs the literal procedure for all of them (git -C /repo apply <patch>; ./run.sh <ID>
 quick; git -C /repo checkout -- .); last result: **%s** (seeded/RESULTS.txt).
 %d of the %d changes were MISSED by the version of the check that existed when the change arrived; every
 miss led to a general strengthening (a new clause or a wider menu, described in the last column and in 8.5),
-never to a special case for that patch, and no check was loosened. One change (C14-d: `Translate(src[:0], src)`
-breaks because dst is zero-filled before src is read) is deliberately NOT detected: overlapping dst and src is
-outside the statement, other append-style functions of the package do not support it on the pinned tree
+never to a special case for that patch, and no check was loosened. Two changes (C14-d: `Translate(src[:0], src)` breaks because dst is zero-filled before src is read; C13-h:
+`DNATo2Bit(seq[:0], seq)` breaks because the output byte is appended before the group is read) are deliberately NOT
+detected: overlapping dst and src is outside the statements, other append-style functions of the package do not support it on the pinned tree
 either, and demanding it would raise an alarm on a correct implementation that pre-grows dst.
 
 | id | change | needs to manifest | caught by clause | history |
